@@ -28,12 +28,25 @@ uint32_t
 crc32_gzip_refl_base(uint32_t seed, uint8_t *buf, uint64_t len);
 
 #ifndef REPLAY
-/* CBMC has no model of wmemset; libc semantics */
+/* CBMC has no model of wmemset: libc semantics as a loop.  The one big call (isal_deflate initialising all
+ * IGZIP_LVL0_HASH_SIZE 16-bit hash heads = 4096 wide characters whose two halves are equal) is done as one
+ * array assignment (array_set on a local + struct copy) instead of 4096 single stores, which CBMC cannot
+ * digest (measured: 12 GB).  Same values; needs the stream object to be a static (not malloc'd) object to
+ * keep its other fields untouched in CBMC's memory model. */
+struct dfl_hw {
+        uint16_t h[IGZIP_LVL0_HASH_SIZE];
+};
 wchar_t *
 wmemset(wchar_t *s, wchar_t c, size_t n)
 {
-        for (size_t i = 0; i < n; i++)
-                s[i] = c;
+        if (n == sizeof(struct dfl_hw) / sizeof(wchar_t) && sizeof(wchar_t) == 4 && (((uint32_t) c) >> 16) == (((uint32_t) c) & 0xffff)) {
+                uint16_t tmp[IGZIP_LVL0_HASH_SIZE];
+                __CPROVER_array_set(tmp, (uint16_t) c);
+                *(struct dfl_hw *) s = *(struct dfl_hw *) tmp;
+        } else {
+                for (size_t i = 0; i < n; i++)
+                        s[i] = c;
+        }
         return s;
 }
 #endif
@@ -178,8 +191,9 @@ struct dfl_guided {
 
 /* Decode `nblk` blocks starting at bit `start_bit` of in[0..in_len) and compare with exp[0..) (the
  * original input bytes that these blocks must reproduce).  toklen[] = expected bit length per literal
- * token in input order (0 = not predicted: position stays symbolic).  want_final: BFINAL expected on
- * the last block of the script (and on no other). */
+ * token in input order (0 = not predicted: position stays symbolic).  want_final: the stream must be
+ * finished: BFINAL on the last block of the script or on one extra empty fixed block after it (and on no
+ * other block). */
 static inline void
 dfl_guided_decode(const uint8_t *in, size_t in_len, size_t start_bit, const struct dfl_blk *blk, int nblk,
                   const uint8_t *exp, const uint8_t *toklen, int ntoklen, int want_final, struct dfl_guided *g)
@@ -208,8 +222,8 @@ dfl_guided_decode(const uint8_t *in, size_t in_len, size_t start_bit, const stru
                 type = blk[b].btype;
                 if (b < nblk - 1 || !want_final)
                         VASSERT(last == 0, "BFINAL clear on a block that is not the last of the stream");
-                else
-                        VASSERT(last == 1, "BFINAL set on the last block of a finished stream");
+                /* the last data block may carry BFINAL itself or (when its header was written before
+                 * end_of_stream was announced) be followed by one empty final block, see below */
                 final_seen = last;
                 if (type == 0) {
                         s.pos = (s.pos + 7) & ~(size_t) 7;
@@ -243,6 +257,19 @@ dfl_guided_decode(const uint8_t *in, size_t in_len, size_t start_bit, const stru
                         VASSERT(!s.eof && sym == 256, "end-of-block symbol after the block's literals");
                         s.pos = p0 + 7; /* 256 is 0000000 (7 bits) in the fixed code; same value when the assertion holds */
                 }
+        }
+        if (want_final && !final_seen) {
+                /* igzip.c write_trailer: "If the final header has not been written, write a final block. This
+                 * block is a static huffman block which only contains the end of block symbol" */
+                int last = (int) rfc_bits(&s, 1);
+                int type = (int) rfc_bits(&s, 2);
+                VASSERT(!s.eof && last == 1, "a finished stream ends with a BFINAL block");
+                VASSERT(type == 1, "STRUCT: the extra final block is an empty fixed-Huffman block");
+                size_t p0 = s.pos;
+                int sym = rfc_fixed_litlen(&s);
+                VASSERT(!s.eof && sym == 256, "the extra final block contains only the end-of-block symbol");
+                s.pos = p0 + 7;
+                final_seen = 1;
         }
         g->bit_pos = s.pos;
         g->out_len = idx;
